@@ -765,10 +765,10 @@ func nonEmptyKnown(x *absint.Exec, s *absint.State, v absint.Value) bool {
 func init() {
 	register(&Property{
 		ID:    "C08",
-		Rules: []string{"C08-R1", "C08-R2", "C08-R3", "C08-R4", "C08-R5", "C08-R6", "C08-R7"},
+		Rules: []string{"C08-R1", "C08-R2", "C08-R3", "C08-R4", "C08-R5", "C08-R6", "C08-R7", "C08-R8"},
 		Explain: "Decides the crash and hang mechanisms visible in the shape of this code (not general panic freedom): C08-R1 the (record, err) contract of ParseCallback on both sides — the parser passes (non-nil, nil) or (nil, non-nil) and no callback dereferences the record when an error is given; " +
 			"C08-R2 every recursive function has a ranking argument (depth counter bounded from above on the path to the call, or descent into a tree whose nodes are only linked to freshly allocated nodes); " +
-			"C08-R3 no panic/log.Fatal/os.Exit outside main.main, template.Must and regexp.MustCompile only on constants that parse; C08-R7 where acc[k][i] indexes a plain lookup in an accumulator the function filled itself, every key added is known to equal k; C08-R6 WithFileReaders stores a reader for every requested name before calling back; C08-R4 the accumulator map is written only when allocated; " +
+			"C08-R3 no panic/log.Fatal/os.Exit outside main.main, template.Must and regexp.MustCompile only on constants that parse; C08-R8 on the path where os.Open fails nothing but Close is called on the nil file; C08-R7 where acc[k][i] indexes a plain lookup in an accumulator the function filled itself, every key added is known to equal k; C08-R6 WithFileReaders stores a reader for every requested name before calling back; C08-R4 the accumulator map is written only when allocated; " +
 			"C08-R5 constant-position string indexing is reached only where the string is known non-empty.",
 		NotDecided: "index/slice bounds and nil dereferences in general, stack exhaustion under an absurd --maxdepth, termination of third-party code, a reader that never ends",
 		Run: func(c *core.Ctx) {
@@ -780,6 +780,7 @@ func init() {
 			ruleStringIndex(c, "C08-R5")
 			ruleFileReaders(c, "C08-R6")
 			ruleUncheckedLookup(c, "C08-R7")
+			ruleNilFile(c, "C08-R8")
 		},
 	})
 }
@@ -834,7 +835,7 @@ func ruleFileReaders(c *core.Ctx, rule string) {
 			return
 		}
 		s.SetData("stored", "1")
-		if k, ok := val.(absint.Const); ok && k.Key() == "c:nil" {
+		if k, ok := val.(absint.Const); ok && k.Nil {
 			bad = append(bad, "a nil reader is stored for a requested file")
 		}
 		if iv, ok := val.(*absint.Iface); !ok || iv.T == nil || iv.T.String() != "*os.File" {
@@ -1133,4 +1134,70 @@ func lenAtLeast(x *absint.Exec, s *absint.State, v absint.Value, k int64) bool {
 		}
 	}
 	return false
+}
+
+// ruleNilFile is C08-R8: where os.Open (Create, OpenFile) fails, the file it
+// returned is nil; on that path nothing but Close may be called on it.
+func ruleNilFile(c *core.Ctx, rule string) {
+	openers := map[string]bool{"os.Open": true, "os.Create": true, "os.OpenFile": true}
+	n := 0
+	for _, fn := range c.P.Funcs {
+		opens := false
+		for _, b := range fn.Blocks {
+			for _, in := range b.Instrs {
+				if ci, ok := in.(ssa.CallInstruction); ok {
+					if cal := ci.Common().StaticCallee(); cal != nil && openers[cal.String()] {
+						opens = true
+					}
+				}
+			}
+		}
+		if !opens || fn.Parent() != nil && false {
+			continue
+		}
+		n++
+		fname := core.FuncName(fn)
+		x := newExec(c)
+		x.Hooks.Inline = func(callee *ssa.Function, depth int) bool { return false }
+		var bad []string
+		x.Hooks.Call = func(x *absint.Exec, s *absint.State, site ssa.CallInstruction, callee *ssa.Function, fnv absint.Value, args []absint.Value) (absint.Value, bool) {
+			if callee == nil {
+				return nil, false
+			}
+			if openers[callee.String()] {
+				f, e := x.Fresh(s, "file"), x.Fresh(s, "openerr")
+				s.SetData("pair:"+e.Key(), f.Key())
+				return &absint.Tuple{Elems: []absint.Value{f, e}}, true
+			}
+			if strings.HasPrefix(callee.String(), "(*os.File).") && callee.Name() != "Close" && len(args) > 0 {
+				if nilnessOf(x, s, args[0]) == "nil" {
+					bad = append(bad, fmt.Sprintf("%s: %s is called on the file of an open that failed (the file is nil there): nil pointer dereference", c.P.Pos(site.Pos()), callee.Name()))
+				}
+			}
+			return nil, false
+		}
+		x.Hooks.Decide = func(x *absint.Exec, s *absint.State, atom string, outs []string) {
+			if len(outs) != 1 || outs[0] != "nonnil" || !strings.HasPrefix(atom, "nil(§openerr") {
+				return
+			}
+			ek := strings.TrimSuffix(strings.TrimPrefix(atom, "nil("), ")")
+			if fk := s.Data["pair:"+ek]; fk != "" {
+				x.AssumeNil(s, absint.Sym{Name: strings.TrimPrefix(fk, "§")}, true)
+			}
+		}
+		x.Run(x.NewState(fn, nil, nil))
+		if !account(c, x, rule, fn) {
+			continue
+		}
+		bad = uniq(bad)
+		if len(bad) == 0 {
+			c.Discharge(rule, fname, "nil-file", c.P.Pos(fn.Pos()), "on the path where the open fails nothing is called on the (nil) file")
+		}
+		for _, m := range bad {
+			c.Violate(rule, fname, "nil-file", c.P.Pos(fn.Pos()), m, nil)
+		}
+	}
+	if n == 0 {
+		c.Note(rule + ": no function opens a file")
+	}
 }
